@@ -7,15 +7,20 @@
    enclosing make_model.  Its meaning is Script/PySem.v `eval_script` (one Python scope, if / while / for);
    the graph's meaning is Graph/Sem.v `eval_graph` (nested scopes with outer-scope capture); `sem` is arbitrary.
 
-   PROVED (C13_export_nested_sound_partial): options off; graphs built from plain nodes, If nodes and Loop nodes in the
-   `while` form (no trip count, a condition input, the body does not read its condition input), nested to any depth,
+   PROVED (C13_export_nested_sound_partial): options off; graphs built from plain nodes, If nodes, Loop nodes in the
+   `while` form (no trip count, a condition input, the body does not read its condition input) and Loop nodes in the
+   `for` form (a trip count, no condition input, the body passes its condition through by its last node
+   `cond_out = Identity(cond_in)` or directly; the iteration number may be used), nested to any depth,
    initializers of the main graph referenced from any body; under the executable side conditions `nested_okb`
    (translation injective on the names, every value defined before use and not shadowed, the sequential `x = y`
    lines never read a variable an earlier line of the same group overwrote, ...): calling the exported function and
    evaluating the graph give the SAME result (both the same values or both an error), for every kernel semantics,
    with the same iteration bound for `while` and for Loop-without-trip-count.
-   NOT proved: the counted Loop forms (`for`, `for` + `if not c: break`), which are part of the emission model and of
-   the correspondence check only (their assignments are the subject of Props/C13_unssa.v over an abstract body);
+   The `for` form needs two facts about the kernels (premises of the theorem): Identity returns its input, and the
+   constant condition of_bool b is read back as b.
+   NOT proved: the Loop form `for` + `if not c: break` (trip count AND condition), which is part of the emission model
+   and of the correspondence check only (it needs a law for the Not kernel, a total truth function and one more level
+   of Python nesting than the graph has; the converter refuses the printed form anyway: known finding);
    use_operators / inline_const / skip_initializers (model + correspondence only; one refutation below); attribute
    parameters; the way back through the converter (C01). *)
 From Coq Require Import List String ZArith.
@@ -36,7 +41,9 @@ Definition C13_export_sound_nested_full : Prop :=
       end.
 
 Theorem C13_export_nested_sound_partial :
-  forall (V : Type) sem truth trip of_nat of_bool limit globals kw prename rename infun fname ivals g f sk,
+  forall (V : Type) sem truth trip of_nat of_bool limit globals kw prename rename infun,
+    (forall v, sem "" "Identity" [] [Some v] = Some [v]) -> (forall b, truth (of_bool b) = Some b) ->
+    forall fname ivals g f sk,
     export_cf kw prename rename infun None None false fname ivals g = Some (f, sk) ->
     nested_okb kw prename rename infun ivals g = true ->
     forall fp fg xs, depth_graph g <= S fp -> depth_graph g <= S fg ->
@@ -58,6 +65,15 @@ Theorem C13_export_nested_example :
   option_map (fun outer => zgraph2 outer g_nested [5%Z]) (init_env Z zsem2 iv_nested) = Some (Some [(-10)%Z]).
 Proof. exact export_nested_example. Qed.
 Print Assumptions C13_export_nested_example.
+
+(* non-vacuity for the counted form: `for i in range(n)`, iteration number used, pass-through condition as last body node *)
+Theorem C13_export_for_example :
+  nested_okb kwlist (cleanup kwlist) (cleanup kwlist) true [] g_for = true /\
+  export_cf kwlist (cleanup kwlist) (cleanup kwlist) true None None false "g" [] g_for = Some (f_for, []) /\
+  zscript2 f_for [5%Z; 3%Z] = Some [23%Z] /\ zgraph2 [] g_for [5%Z; 3%Z] = Some [23%Z] /\
+  zscript2 f_for [5%Z; 0%Z] = Some [5%Z] /\ zgraph2 [] g_for [5%Z; 0%Z] = Some [5%Z].
+Proof. exact export_for_example. Qed.
+Print Assumptions C13_export_for_example.
 
 (* use_operators + inline_const: the program printed for Pow(-2, x) is `y = -2 ** x`, i.e. -(2 ** x) once parsed.
    Replayed on the real exporter by the harness: known finding C13:use_operators:negative-literal-pow-base:precedence. *)
